@@ -171,6 +171,10 @@ def main():
     for i, (every, npart, kern) in enumerate([(5, 128, "tpcn"), (3, 96, "rwm")] + ([] if ck.tier == "quick" else [(2, 128, "tpcn"), (7, 192, "tpcn"), (4, 96, "rwm")])):
         jobs.append({"conf": dict(sample=kern, clustering=True, n_particles=npart, target="banana", cluster_every=every), "seed": 1400 + i + ck.seed,
                      "n_total": 2 * npart, "label": f"banana every={every} n={npart} {kern}"})
+    # blobs together with clustering (several labels alive): the labels travel with the records through resampling
+    for i, kern in enumerate(("tpcn", "rwm")):
+        jobs.append({"conf": dict(sample=kern, clustering=True, n_particles=16, target="bimodal", evaluation="blobs", cluster_every=1 + i), "seed": 1450 + i + ck.seed,
+                     "n_total": 48, "label": f"blobs + clustering {kern}"})
     sc, traces = sysrun.system_part(ck, "C14", jobs, nontrivial)
     cov.update(sc)
     cov.update(sysrun.selftest(traces[0]))
